@@ -192,11 +192,13 @@ TEXT = {
              "real-time bound. Float costs modelled as naturals."),
     "C06": dict(
         text="Theorems replay_is_noop, stale_is_noop, no_self_accept / self_origin_never_accepted, relay_excludes_receiver, "
-             "info_monotone, relay_at_most_once (induction over arbitrary histories), flood_terminates_bound over the executable "
+             "info_monotone, relay_at_most_once (induction over arbitrary histories), relay_at_most_once_despite_expiry_partial and "
+             "info_monotone_despite_expiry (histories of genuine updates in which the seen table forgets any entries at any moments: the "
+             "update an origin stamped (epoch, seq) is relayed in at most one step, under whatever IDs its copies arrive), flood_terminates_bound over the executable "
              "model of handleRoutingUpdate (path by path, incl. suspected-duplicate notices, nil-vs-empty maps). Tie: regenerated "
              "facts (stale tests and operators, dedup position and lock span, relay call, self filter) + differential runs of random "
              "update histories (restarts, replays, old-epoch stragglers, notices, removals, originations) on a real Netceptor.",
-        note=BASE_NOTE + "Seen-table expiry and the concurrency of per-connection goroutines are modelled as sequential steps under the "
+        note=BASE_NOTE + "Seen-table expiry (an event forgetting any entries) and the concurrency of per-connection goroutines are modelled as sequential steps under the "
              "lock facts; notices bypass the epoch test by design (at-most-once per UpdateID only): partial."),
     "C07": dict(
         text="Theorems proto_no_crash / proto_script_no_crash (no datagram of any kind, length, JSON shape or field-type substitution, in "
